@@ -851,14 +851,20 @@ class GraphBuilder(BuilderBase):
                     output.name = self._qualify_value_name(output.name)
             self.add_node(node)
 
-        # Apply names to final output values
+        # Apply names to final output values. A function may return one of its inputs:
+        # that output is the caller's own value, which keeps its name.
+        argument_ids = {id(arg) for arg in adapted_args if arg is not None}
         if desired_output_names:
             for output_val, name in zip(outputs, desired_output_names):
-                if output_val is not None:
+                if output_val is not None and id(output_val) not in argument_ids:
                     output_val.name = name
         else:
             for output_val in outputs:
-                if output_val is not None and output_val.name:
+                if (
+                    output_val is not None
+                    and output_val.name
+                    and id(output_val) not in argument_ids
+                ):
                     output_val.name = self._qualify_value_name(output_val.name)
 
         if _prefix:
